@@ -183,10 +183,12 @@ def reflection(ctx, rng, idx):
     spec, s = _spec(rng, smooth_only=implicit, nmax=10 if implicit else 16)
     tw = mirror(spec)
     model, mesh, disc, f = spec.build()
-    model2, mesh2, disc2, f2 = tw.build()
+    # half of the twins REUSE the scheme object (and the model object when its parameters are the same) of the original problem
+    share = bool(rng.random() < 0.5)
+    model2, mesh2, disc2, f2 = tw.build(num=disc.num if share else None, model=model if (share and spec.mname in ("euler1d", "shallowwater", "burgers")) else None)
     cfl = float(rng.uniform(0.1, 0.4) if not implicit else rng.uniform(0.2, 1.5))
     nstep = int(rng.integers(1, 9 if not implicit else 4))
-    ctx.describe(integrator=iname, cfl=cfl, nstep=nstep, **spec.desc())
+    ctx.describe(integrator=iname, cfl=cfl, nstep=nstep, scheme_object_shared_with_twin=share, **spec.desc())
     r1 = disc.rhs(f); r2 = unmirror(disc2.rhs(f2), spec.mname)
     if not (_finite(r1) and _finite(r2)):
         raise core.Skip("nonfinite rhs")       # reconstructed face states left the admissible set (possibly in one twin only, by round-off)
@@ -237,13 +239,17 @@ def units(ctx, rng, idx):
     implicit = iname in gen.IMPLICIT
     spec, s = _spec(rng, smooth_only=implicit, nmax=10 if implicit else 16)
     reg = spec.rname in REG_LIMS
+    general = (idx // len(gen.ALL_INTEG)) % 4 == 3        # arbitrary (non power-of-two) factors: rescaled to round-off, not bit for bit
     if reg:   # only scale gradients up (DESIGN 3/C13): a, b >= 1 and l <= 1
-        a, b, l = 4.0 ** int(rng.integers(0, 6)), 4.0 ** int(rng.integers(0, 6)), 4.0 ** -int(rng.integers(0, 6))
+        a, b, l = 2.0 ** int(rng.integers(0, 12)), 2.0 ** int(rng.integers(0, 12)), 2.0 ** -int(rng.integers(0, 12))
+    elif general:
+        a, b, l = (float(10 ** rng.uniform(-3, 3)) for _ in range(3))
     else:
-        a, b, l = (4.0 ** int(rng.integers(-10, 11)) for _ in range(3))
+        a, b, l = (2.0 ** int(rng.integers(-20, 21)) for _ in range(3))
     tw = rescale(spec, a, b, l)
     model, mesh, disc, f = spec.build()
-    model2, mesh2, disc2, f2 = tw.build()
+    share = bool(rng.random() < 0.5)
+    model2, mesh2, disc2, f2 = tw.build(num=disc.num if share else None, model=model if (share and spec.mname in ("euler1d", "burgers")) else None)
     ps, qs, rs, ts = scales(spec.mname, a, b, l)
     cfl = float(rng.uniform(0.1, 0.4) if not implicit else rng.uniform(0.2, 1.5))
     nstep = int(rng.integers(1, 9 if not implicit else 4))
@@ -254,7 +260,7 @@ def units(ctx, rng, idx):
     # python / numpy-scalar `x**2` goes through libm pow, which is not exactly scale covariant in ~1e-5 of the cases: Burgers' flux and
     # the boundary conditions that square a scalar (insub_cbc, outsub_qtot; 1D boundary states are scalars) are compared with a tolerance
     scalar_pow = any(b["type"] in ("insub_cbc", "outsub_qtot") for b in (spec.bcL, spec.bcR))
-    bitwise = spec.mname in ("convection", "shallowwater", "euler1d", "nozzle") and not reg and not scalar_pow
+    bitwise = spec.mname in ("convection", "shallowwater", "euler1d", "nozzle") and not reg and not scalar_pow and not general
     fs = _fluxscale(spec.mname, model, spec.prim)
     dxmin = float(np.min(mesh.vol()))
     tag = "%s/%s" % (spec.mname, spec.flux)
